@@ -25,12 +25,16 @@ def main():
         from vlib import contracts
         if job.get("contracts", getattr(mod, "CONTRACTS", "icontract")) != "none":
             contracts.install(job.get("contracts", getattr(mod, "CONTRACTS", "icontract")))
+        from vlib import cover
+        covering = os.environ.get("VERIF_COVER", "1") != "0" and cover.start(prop.upper())
         res = mod.run_shard(job["desc"], job["tier"], job["seed"])
+        reached = cover.stop() if covering else None
         from vlib import contracts as c2
         res.contracts.update(c2.counts())
         for v in c2.violations():
             res.violation(v["key"], v["what"], v["witness"])
         out = res.to_json()
+        out["cover"] = reached
         out["ok"] = True
     except BaseException as e:  # harness failure, not a verdict
         out = {"ok": False, "error": "".join(traceback.format_exception(type(e), e, e.__traceback__))[-4000:]}
